@@ -56,6 +56,8 @@ type WKey struct {
 	MapUnder     string `json:"map_under,omitempty"`     // map key differs from the key id: "pool:<name>"
 	WithPrivate  bool   `json:"with_private,omitempty"`  // hand over the private half too
 	PublicRaw    string `json:"public_raw,omitempty"`    // replace the public material by this text
+	KeyTypeRaw   string `json:"key_type_raw,omitempty"`  // with KeyTypeSet: replace the key type by this text
+	KeyTypeSet   bool   `json:"key_type_set,omitempty"`
 }
 
 type World struct {
@@ -343,6 +345,9 @@ func (b *Built) VerifierKeyMap() map[string]intoto.Key {
 		}
 		if wk.PublicRaw != "" {
 			key.KeyVal.Public = wk.PublicRaw
+		}
+		if wk.KeyTypeSet {
+			key.KeyType = wk.KeyTypeRaw
 		}
 		id := key.KeyID
 		if strings.HasPrefix(wk.MapUnder, "pool:") {
